@@ -113,6 +113,7 @@ impl Context {
     pub proof fn lemma_nodes(&self)
         ensures self.nodes().dom().finite(),
                 forall|r: ExprRef| #[trigger] self.has(r) <==> 1 <= r.0 <= self.exprs@.len(),
+                forall|r: ExprRef| #[trigger] self.nodes().contains_key(r) <==> 1 <= r.0 <= self.exprs@.len(),
                 forall|r: ExprRef| 1 <= r.0 <= self.exprs@.len() ==> #[trigger] self.nodes()[r] == self.exprs@[r.0 - 1],
     {
         self.exprs.ax_table_bound();
